@@ -261,6 +261,22 @@ impl Elem for Tracked {
     }
 }
 
+/// A large Copy-like element (328 bytes): rows and whole arrays cross the byte thresholds at
+/// which rotate / swap / copy strategies change, with few cells
+#[derive(Clone, PartialEq)]
+pub struct Big { pub v: u32, pub pad: [u64; 40] }
+impl Default for Big { fn default() -> Big { Big { v: 0, pad: [0; 40] } } }
+impl Eq for Big {}
+impl PartialOrd for Big { fn partial_cmp(&self, o: &Big) -> Option<std::cmp::Ordering> { Some(self.cmp(o)) } }
+impl Ord for Big { fn cmp(&self, o: &Big) -> std::cmp::Ordering { self.v.cmp(&o.v) } }
+impl Elem for Big {
+    const TRACK: bool = false;
+    const ESZ: u64 = 328;
+    fn mk(v: u32) -> Big { Big { v, pad: [v as u64 ^ 0x5555_5555_5555_5555; 40] } }
+    fn val(&self) -> u32 { if self.pad.iter().all(|p| *p == self.v as u64 ^ 0x5555_5555_5555_5555) || (self.v == 0 && self.pad == [0; 40]) { self.v } else { u32::MAX } }
+    fn is_zombie(&self) -> bool { false }
+}
+
 /// A zero-sized element type with drop side effects: only counts can be observed.
 pub struct Zt;
 thread_local! {
